@@ -93,7 +93,10 @@ var c12Ops = []c12Op{
 		_ = ap.OnActivity(x, func(a *ap.Activity) error { fmt.Fprint(&sb, "a:", a.ID, a.Actor != nil, a.Object != nil); return nil })
 		_ = ap.OnActor(x, func(a *ap.Actor) error { fmt.Fprint(&sb, "p:", a.ID, a.Inbox != nil); return nil })
 		_ = ap.OnIntransitiveActivity(x, func(a *ap.IntransitiveActivity) error { fmt.Fprint(&sb, "i:", a.ID, a.Actor != nil); return nil })
-		_ = ap.OnCollectionIntf(x, func(c ap.CollectionInterface) error { fmt.Fprint(&sb, "c:", c.Count(), len(c.Collection())); return nil })
+		_ = ap.OnCollectionIntf(x, func(c ap.CollectionInterface) error {
+			fmt.Fprint(&sb, "c:", c.Count(), len(c.Collection()))
+			return nil
+		})
 		_ = ap.OnLink(x, func(l *ap.Link) error { fmt.Fprint(&sb, "l:", l.Href); return nil })
 		_ = ap.OnItem(x, func(it ap.Item) error { fmt.Fprint(&sb, "it:", it.GetLink()); return nil })
 		if o, err := ap.ToObject(x); err == nil && o != nil {
